@@ -514,10 +514,10 @@ func polyOf(t *pt) spoly {
 // ---------- interpreter hooks ----------
 
 type protoDom struct {
-	e       *sched
-	draws   int
-	globals map[string]func(st *sState) sVal
-	notes   []string
+	e            *sched
+	draws        int
+	globals      map[string]func(st *sState) sVal
+	notes        []string
 	gLocals      int
 	tpkCalls     int
 	stream       bool // stream domain (package sm3): mutable fields, struct copies, loop acceleration
